@@ -57,7 +57,8 @@ pub fn gen_case(r: &mut Rng) -> Case {
     p.hanafi = Some(r.chance(0.5));
     let pol = *r.pick(&POLICIES);
     let pl = if is_nearest_lat(pol) {
-        Some(match r.int(0, 7) {
+        Some(match r.int(0, 8) {
+            8 => la, // substitute latitude bit-equal to the site's own
             0 => 90.0,
             1 => -90.0,
             2 => 0.0,
